@@ -230,6 +230,7 @@ ACQUIRE_NOWAIT = Contract(
             ensures=lambda pre, post, a, ret: [("state_unchanged", z3.And(lock_fields_unchanged(pre, post, a.self), futures_unchanged(pre, post)))],
         ),
     ],
+    modifies={("Lock", "_owner_task")},
     bind=bind_self,
 )
 
@@ -243,6 +244,8 @@ ACQUIRE = Contract(
             when=lambda pre, a: owner(pre, a.self) == a.cur,
             raises="RuntimeError",
             ensures=lambda pre, post, a, ret: [("state_unchanged", z3.And(lock_fields_unchanged(pre, post, a.self), futures_unchanged(pre, post)))],
+            no_suspend=True,  # refused before any suspension point: nothing else has run (checked at the callee's exit)
+            modifies=set(),
         ),
         Case(
             "cancelled",
@@ -271,6 +274,7 @@ LOCKED = Contract(
             ],
         )
     ],
+    modifies=set(),
     bind=bind_self,
 )
 
